@@ -28,6 +28,7 @@ struct SchedParams {
 	uint32_t jitter_us = 0;      // usleep(d) sleeps d + U[0,jitter]
 	uint32_t preempt_permille = 0;   // chance that a task is descheduled at a lock / unlock point ...
 	uint32_t preempt_max_us = 0;     // ... for up to this long (simulated time passes: the "slow thread" fault)
+	bool glib_yield = false;      // GLib container calls are preemption points too (probability fn_yield_permille)
 	uint32_t grid_us = 1;        // >1: every wake-up and every frame start is rounded up to a multiple of this (see grid_round)
 	uint64_t epoch0_us = 1700000000ULL * 1000000ULL;
 	uint64_t max_steps = 3000000;
@@ -108,6 +109,7 @@ void join(int task);
 void sleep_us(uint64_t us);          // advance on the simulated clock
 void yield(YieldKind k);
 uint64_t now_us();
+void maybe_preempt_at_call();
 void preempt_enable(bool on);          // scheduling faults (starvation window, descheduling at lock points) allowed; the engine switches them off during bidib_start_*
 uint64_t grid_round(uint64_t t_us);   // next instant of the run's time grid at or after t
 int64_t time_s();          // value the wrapped time() returns now
